@@ -396,7 +396,7 @@ def one_case(ctx, case):
 
 
 def run_shard(ctx):
-    for i in range(ncases(ctx.tier)):
+    for i in ctx.cases(ncases(ctx.tier)):
         case = gen_case(ctx.rng(i))
         viol, nt = one_case(ctx, case)
         for m, what, wit in viol:
